@@ -1,9 +1,18 @@
 package main
 
 import (
+	"crypto/ecdsa"
+	"crypto/elliptic"
+	crand "crypto/rand"
+	"crypto/tls"
+	stdx509 "crypto/x509"
+	"math/big"
+	"strings"
+
 	"context"
 	"crypto/ed25519"
 	"fmt"
+	"github.com/quic-go/quic-go"
 	"math/rand"
 	"net"
 	"sync"
@@ -37,7 +46,9 @@ func secureOracle(r *rand.Rand, n int, tier string, infile string) (cases int, f
 		}
 	}
 	for i := 0; i < n; i++ {
-		switch i % 4 {
+		switch i % 5 {
+		case 4:
+			cases += quicEvilCase(bad)
 		case 0:
 			cases += p2pkeSwarmCase(r, bad)
 		case 1:
@@ -340,3 +351,82 @@ func sshEvilCase(bad func(string, ...any)) int {
 }
 
 var _ = x509.PublicKey{}
+
+// quicEvilCase: a QUIC peer that holds only its own (ECDSA) key proves it with the first certificate of its chain
+// and appends a second, self-issued certificate that merely NAMES an honest node's Ed25519 key. Whatever the honest
+// listener delivers must be attributed to a key the sender proved, never to the named one (C04).
+func quicEvilCase(bad func(string, ...any)) int {
+	alice, err := quicswarm.NewOnUDP("127.0.0.1:0", testPrivKey(700))
+	if err != nil {
+		return 1
+	}
+	defer alice.Close()
+	seed := make([]byte, ed25519.SeedSize)
+	seed[0] = 0x77
+	victimStd := ed25519.NewKeyFromSeed(seed).Public()
+	victimDER, _ := stdx509.MarshalPKIXPublicKey(victimStd)
+	victimPub, err := x509.ParsePublicKey(victimDER)
+	if err != nil {
+		return 1
+	}
+	victimID := quicswarm.DefaultFingerprinter(victimPub)
+	advKey, err := ecdsa.GenerateKey(elliptic.P256(), crand.Reader)
+	if err != nil {
+		return 1
+	}
+	tmpl := func(serial int64) *stdx509.Certificate {
+		return &stdx509.Certificate{SerialNumber: big.NewInt(serial), NotBefore: time.Now().Add(-time.Hour), NotAfter: time.Now().Add(time.Hour),
+			KeyUsage:    stdx509.KeyUsageDigitalSignature | stdx509.KeyUsageCertSign,
+			ExtKeyUsage: []stdx509.ExtKeyUsage{stdx509.ExtKeyUsageClientAuth, stdx509.ExtKeyUsageServerAuth}, BasicConstraintsValid: true, IsCA: true}
+	}
+	leafT := tmpl(1)
+	leafDER, err1 := stdx509.CreateCertificate(crand.Reader, leafT, leafT, advKey.Public(), advKey)
+	claimDER, err2 := stdx509.CreateCertificate(crand.Reader, tmpl(2), leafT, victimStd, advKey)
+	if err1 != nil || err2 != nil {
+		return 1
+	}
+	ctx, cf := context.WithTimeout(context.Background(), 4*time.Second)
+	defer cf()
+	got := make(chan string, 4)
+	go func() {
+		for {
+			if err := alice.Receive(ctx, func(m p2p.Message[quicswarm.Addr[udpswarm.Addr]]) {
+				lk := "-"
+				cctx, ccf := context.WithCancel(context.Background())
+				ccf()
+				if pk, err := alice.LookupPublicKey(cctx, m.Src); err == nil {
+					lk = quicswarm.DefaultFingerprinter(pk).String()
+				}
+				got <- m.Src.ID.String() + " " + lk
+			}); err != nil {
+				return
+			}
+		}
+	}()
+	ua := alice.LocalAddrs()[0].Addr
+	for _, chain := range [][][]byte{{leafDER, claimDER}, {claimDER, leafDER}} {
+		sess, err := quic.DialAddr(ctx, ua.String(), &tls.Config{
+			Certificates:       []tls.Certificate{{Certificate: chain, PrivateKey: advKey}},
+			InsecureSkipVerify: true, NextProtos: []string{"p2p"}}, &quic.Config{})
+		if err != nil {
+			continue // refused: fine
+		}
+		if st, err := sess.OpenUniStream(); err == nil {
+			st.Write([]byte("hello from a peer that only holds an ECDSA key"))
+			st.Close()
+		}
+		select {
+		case g := <-got:
+			f := strings.Fields(g)
+			if f[0] == victimID.String() {
+				bad("C04 quicswarm attributes a message to identity %s, a key the sender only named in an appended certificate (it proved possession of an ECDSA key)", f[0])
+			}
+			if f[1] == victimID.String() {
+				bad("C04 quicswarm LookupPublicKey inside the handler returns the key the sender only named in an appended certificate")
+			}
+		case <-time.After(700 * time.Millisecond):
+		}
+		sess.CloseWithError(0, "")
+	}
+	return 1
+}
